@@ -539,7 +539,18 @@ def size_obj(n):
     return None
 
 
+def _drop_comments(n):
+    inner = n.get("inner")
+    if inner:
+        n["inner"] = [c for c in inner if not (c and str(c.get("kind", "")).endswith("Comment"))]
+        for c in n["inner"]:
+            if c:
+                _drop_comments(c)
+
+
 def _mk(d, files, srcdir, cached, dig):
+    for dd in d["decls"]:
+        _drop_comments(dd)
     tu = TU(d["decls"], {"flags": d["flags"], "clang": d["clang"], "cached": cached, "digest": dig[:16],
                          "files": [os.path.basename(f) for f in files]})
     # coverage guard: every source file of the engine directory contributes at least one analysed declaration
